@@ -25,8 +25,10 @@ import (
 	"errors"
 	"fmt"
 	"io"
+	"log/slog"
 	"os"
 	"os/exec"
+	"os/signal"
 	"path/filepath"
 	"sort"
 	"strconv"
@@ -35,6 +37,7 @@ import (
 	"syscall"
 
 	"github.com/bufbuild/buf/private/bufpkg/bufconfig"
+	"github.com/bufbuild/buf/private/bufpkg/bufprotoplugin/bufprotopluginos"
 	"github.com/bufbuild/buf/private/pkg/normalpath"
 	"github.com/bufbuild/buf/private/pkg/storage"
 	"github.com/bufbuild/buf/private/pkg/storage/storagearchive"
@@ -45,6 +48,7 @@ import (
 	"github.com/bufbuild/verifharness/internal/bk"
 	"github.com/bufbuild/verifharness/internal/hx"
 	"github.com/klauspost/compress/zip"
+	"google.golang.org/protobuf/types/pluginpb"
 )
 
 var ctx = context.Background()
@@ -615,6 +619,72 @@ func partBreadth(run *hx.Run, r *hx.Rand) {
 }
 
 // ---------------------------------------------------------------------------------------
+// Part F: the generated-file flush (bufprotopluginos.ResponseWriter.Close)
+
+func partFlush(run *hx.Run, r *hx.Rand, tmpRoot string) {
+	n := run.N(60, 600)
+	for i := 0; i < n; i++ {
+		cr := r.Fork(uint64(i))
+		nout := 1 + cr.Intn(4)
+		fails := make([]bool, nout)
+		for j := range fails {
+			fails[j] = cr.Chance(1, 3)
+		}
+		dir := filepath.Join(tmpRoot, "fl"+strconv.Itoa(i))
+		must(os.MkdirAll(dir, 0o755))
+		rw := bufprotopluginos.NewResponseWriter(slog.New(slog.NewTextHandler(io.Discard, nil)), storageos.NewProvider(), bufprotopluginos.ResponseWriterWithCreateOutDirIfNotExists())
+		addErr := false
+		for j := 0; j < nout; j++ {
+			out := filepath.Join(dir, "out"+strconv.Itoa(j))
+			must(os.MkdirAll(out, 0o755))
+			if fails[j] {
+				// "gen" exists as a regular file, so flushing gen/a.txt into it must fail
+				must(os.WriteFile(filepath.Join(out, "gen"), []byte("x"), 0o644))
+			}
+			name := "gen/a.txt"
+			content := "content" + strconv.Itoa(j)
+			resp := &pluginpb.CodeGeneratorResponse{File: []*pluginpb.CodeGeneratorResponse_File{{Name: &name, Content: &content}}}
+			if err := rw.AddResponse(ctx, resp, out); err != nil {
+				addErr = true
+			}
+		}
+		if addErr {
+			run.Count("F:add-error")
+			os.RemoveAll(dir)
+			continue
+		}
+		err := rw.Close()
+		flushed := 0
+		for j := 0; j < nout; j++ {
+			if data, rerr := os.ReadFile(filepath.Join(dir, "out"+strconv.Itoa(j), "gen", "a.txt")); rerr == nil && string(data) == "content"+strconv.Itoa(j) {
+				flushed++
+			}
+		}
+		bits := ""
+		anyFail := false
+		for _, f := range fails {
+			if f {
+				bits += "1"
+				anyFail = true
+			} else {
+				bits += "0"
+			}
+		}
+		run.Case("flush\t"+bits, okErr(err)+"|flushed="+strconv.Itoa(flushed), anyFail)
+		run.Count("F:flush:" + okErr(err))
+		if anyFail && err == nil {
+			run.Fail(hx.OracleFailure{Class: "flush-fault-not-reported", What: fmt.Sprintf("ResponseWriter.Close returned nil although the flush of an output failed (outputs failing: %v)", fails),
+				Input: map[string]any{"outs": nout, "fails": fails}, Replay: fmt.Sprintf("build/c15 --out /tmp/c15-replay --seed %d --tier %s", run.Seed, run.Tier)})
+		}
+		if err == nil && flushed != nout {
+			run.Fail(hx.OracleFailure{Class: "flush-success-but-missing", What: fmt.Sprintf("ResponseWriter.Close returned nil but only %d of %d outputs hold their generated file", flushed, nout),
+				Input: map[string]any{"outs": nout, "fails": fails}, Replay: fmt.Sprintf("build/c15 --out /tmp/c15-replay --seed %d --tier %s", run.Seed, run.Tier)})
+		}
+		os.RemoveAll(dir)
+	}
+}
+
+// ---------------------------------------------------------------------------------------
 // Part B: atomic puts on disk
 
 func childMain(args []string) {
@@ -660,6 +730,49 @@ func childMain(args []string) {
 	}
 	if err := w.Close(); err != nil {
 		os.Exit(6)
+	}
+	os.Exit(0)
+}
+
+// childFsize: an atomic (or plain) put whose write really fails inside the kernel: the process
+// lowers RLIMIT_FSIZE so that a write crossing the limit is short and returns EFBIG.
+// args: <dir> <relpath> <limit> <atomic 0|1> <chunk>...
+func childFsize(args []string) {
+	dir, rel := args[0], args[1]
+	limit, _ := strconv.Atoi(args[2])
+	atomic := args[3] == "1"
+	chunks := args[4:]
+	signal.Ignore(syscall.SIGXFSZ)
+	if err := syscall.Setrlimit(syscall.RLIMIT_FSIZE, &syscall.Rlimit{Cur: uint64(limit), Max: uint64(limit)}); err != nil {
+		os.Exit(7)
+	}
+	b, err := storageos.NewProvider().NewReadWriteBucket(dir)
+	if err != nil {
+		os.Exit(3)
+	}
+	var opts []storage.PutOption
+	if atomic {
+		opts = append(opts, storage.PutWithAtomic())
+	}
+	w, err := b.Put(ctx, rel, opts...)
+	if err != nil {
+		os.Exit(4)
+	}
+	werr := false
+	for _, c := range chunks {
+		if _, err := w.Write([]byte(c)); err != nil {
+			werr = true
+			break // callers (io.Copy, PutPath) stop at the first write error
+		}
+	}
+	cerr := w.Close()
+	switch {
+	case werr && cerr != nil:
+		os.Exit(20)
+	case werr:
+		os.Exit(21) // write failed but Close reported success
+	case cerr != nil:
+		os.Exit(22)
 	}
 	os.Exit(0)
 }
@@ -757,6 +870,99 @@ func partB(run *hx.Run, r *hx.Rand, tmpRoot string) {
 	}
 }
 
+// partFsize: real short writes (RLIMIT_FSIZE) during atomic and plain puts on disk.
+func partFsize(run *hx.Run, r *hx.Rand, tmpRoot string) {
+	self, err := os.Executable()
+	must(err)
+	n := run.N(16, 120)
+	for i := 0; i < n; i++ {
+		cr := r.Fork(uint64(i))
+		nch := 1 + cr.Intn(4)
+		chunks := make([]string, nch)
+		total := 0
+		for j := range chunks {
+			sz := 3000 + cr.Intn(9000)
+			chunks[j] = strings.Repeat(string(rune('a'+j)), sz)
+			total += sz
+		}
+		// the limit falls strictly inside the content, so some write is short or fails
+		limit := 1000 + cr.Intn(total-1500)
+		failIdx, acc := 0, 0
+		for j, c := range chunks {
+			if acc+len(c) > limit {
+				failIdx = j
+				break
+			}
+			acc += len(c)
+		}
+		old := "-"
+		if cr.Chance(2, 3) {
+			old = "OLD" + strconv.Itoa(cr.Intn(100))
+		}
+		for _, atomic := range []string{"1", "0"} {
+			dir := filepath.Join(tmpRoot, fmt.Sprintf("fs%d-%s", i, atomic))
+			rel := "sub/obj.bin"
+			must(os.MkdirAll(filepath.Join(dir, "sub"), 0o755))
+			if old != "-" {
+				must(os.WriteFile(filepath.Join(dir, rel), []byte(old), 0o644))
+			}
+			args := append([]string{"child-fsize", dir, rel, strconv.Itoa(limit), atomic}, chunks...)
+			cmd := exec.Command(self, args...)
+			cmd.Run()
+			code := cmd.ProcessState.ExitCode()
+			final, temps := inspect(dir, rel)
+			in := map[string]any{"atomic": atomic == "1", "old": old, "chunk_sizes": lens(chunks), "rlimit_fsize": limit}
+			rp := strings.Join(append([]string{self}, args[:5]...), " ") + " <chunks>"
+			run.Count("S:fsize:atomic=" + atomic + ":exit=" + strconv.Itoa(code))
+			// plain put: the failed Write itself reports the error (Close just closes the file);
+			// atomic put: Close decides whether the object is published, so it must fail too
+			if code == 0 || (code == 21 && atomic == "1") {
+				run.Fail(hx.OracleFailure{Class: "short-write-not-reported", What: fmt.Sprintf("a put whose write hit RLIMIT_FSIZE=%d finished with exit class %d (21: write failed but Close returned nil; 0: nothing failed)", limit, code), Input: in, Replay: rp})
+			}
+			if atomic == "1" {
+				tempS := "-"
+				if len(temps) > 0 {
+					tempS = "LEFT"
+				}
+				// model: step failIdx+1 (a write) fails: error, previous content, no temp object
+				oldEnc := old
+				tokChunks := make([]string, len(chunks))
+				for j := range chunks {
+					tokChunks[j] = "k" + strconv.Itoa(j)
+				}
+				finalTok := final
+				if final != "-" && final != "="+old {
+					finalTok = "=TORN" + strconv.Itoa(len(final)-1)
+				}
+				run.Case("atomic\t"+oldEnc+"\t"+strings.Join(tokChunks, "+")+"\t"+strconv.Itoa(failIdx+1), okErrCode(code)+"|final"+finalTok+"|temp"+tempS, true)
+				okOld := (old == "-" && final == "-") || final == "="+old
+				if !okOld || len(temps) > 0 {
+					run.Fail(hx.OracleFailure{Class: "atomic-put-torn", What: fmt.Sprintf("an atomic put whose write failed (RLIMIT_FSIZE=%d) left the object as %d bytes (previous content %q) and %d temp files", limit, len(final)-1, old, len(temps)), Input: in, Replay: rp})
+				}
+			} else {
+				run.Eval()
+				run.Distinct(fmt.Sprintf("fsize-plain-%d", i))
+			}
+			os.RemoveAll(dir)
+		}
+	}
+}
+
+func okErrCode(code int) string {
+	if code == 0 {
+		return "ok"
+	}
+	return "err"
+}
+
+func lens(cs []string) []int {
+	out := make([]int, len(cs))
+	for i, c := range cs {
+		out[i] = len(c)
+	}
+	return out
+}
+
 func stepName(j, n int) string {
 	switch {
 	case j == 0:
@@ -790,6 +996,10 @@ func main() {
 		childMain(os.Args[2:])
 		return
 	}
+	if len(os.Args) > 1 && os.Args[1] == "child-fsize" {
+		childFsize(os.Args[2:])
+		return
+	}
 	run := hx.Start("C15")
 	r := hx.NewRand(run.Seed)
 	tmpRoot, err := os.MkdirTemp("", "verif-c15-")
@@ -798,5 +1008,7 @@ func main() {
 	partA(run, r.Fork(1), tmpRoot)
 	partBreadth(run, r.Fork(2))
 	partB(run, r.Fork(3), tmpRoot)
+	partFsize(run, r.Fork(4), tmpRoot)
+	partFlush(run, r.Fork(5), tmpRoot)
 	run.Finish()
 }
